@@ -1094,7 +1094,7 @@ def r_lon0_every_write(cx):
     cx.count("R-LON0-EVERY-WRITE", "value_writes", n)
 
 
-@rule("R-NO-INPUT-CLAMP", ["C05", "C10"])
+@rule("R-NO-INPUT-CLAMP", ["C05", "C10", "C13"])
 def r_no_input_clamp(cx):
     """A coordinate outside the domain of a projection is refused (NaN, not counted), never quietly moved to the border of
     the domain: in the per-tuple loops of the plane projections no `clamp` / `min` / `max` is applied to an input
@@ -1134,6 +1134,21 @@ def r_no_input_clamp(cx):
                               "%s %s clamps an input coordinate to a range instead of refusing values outside it: every point "
                               "beyond the limit is mapped to the limit's image and counted as a success" % (names[0], role),
                               cx.where(t["span"]))
+                # ... nor is a result moved to the border of a fixed extent: a written value is not itself a clamp
+                # against constants (an absolute length does not scale with the ellipsoid, and the image of a point
+                # outside the extent is no longer the projection's)
+                for (wb, e, nn) in written_xy_terms(f, pt):
+                    for which, v in (("x", e), ("y", nn)):
+                        v = mir.strip_refs(v)
+                        if v[0] == "call" and isinstance(v[1], str) and v[1].rsplit("::", 1)[-1] in ("clamp", "min", "max") and \
+                                "f64" in v[1] and any(mir.strip_refs(b)[0] == "const" or
+                                                      (mir.strip_refs(b)[0] == "un" and mir.strip_refs(mir.strip_refs(b)[2])[0] == "const")
+                                                      for b in v[2][1:]):
+                            n += 1
+                            cx.ob("R-NO-INPUT-CLAMP", "%s/%s/output-clamp-%s" % (names[0], role, which), False,
+                                  "%s %s clamps the %s it writes to a constant extent: points whose image lies outside are "
+                                  "mapped to the border and counted as successes, and the result no longer scales with the "
+                                  "semi-major axis" % (names[0], role, which), cx.where(f.term(wb)["span"]))
     cx.ob("R-NO-INPUT-CLAMP", "summary", True, "%d per-tuple loops of plane projections clamp no input coordinate" % loops,
           nontrivial=loops > 0)
     cx.count("R-NO-INPUT-CLAMP", "loops", loops)
